@@ -6,6 +6,7 @@ import random
 import zlib
 
 import common as C
+import pipeline_lib as PL       # the registry of parameter-annotation kinds (PARAM_KINDS / gen_param_list), shared with the pipeline family
 from cli_args import add_harmless, cli_argv, pool_facts, POOL_SIZES
 
 US = 10**6
@@ -35,6 +36,7 @@ def decorate(sc, prof):
     sc = decorate_config(sc, prof, random.Random(h ^ 0xC0F16))
     sc = decorate_reg(sc, prof, random.Random(h ^ 0x2E615))
     sc = decorate_dup(sc, prof, random.Random(h ^ 0xD0B1E))
+    sc = decorate_params(sc, prof, random.Random(h ^ 0x9A2A35))
     return sc
 
 
@@ -544,6 +546,87 @@ def decorate_dup(sc, prof, rr):
     return sc
 
 
+# --------------------------------------------------------------------------------------------- eighth stage: annotated message parameters
+def decorate_params(sc, prof, rr):
+    """prof: params_p (default 0: opt-in).  Touches nothing but which task some valid known-task messages name, the parameter list
+    of that task's function and the values the messages carry for those parameters; schedule, durations, outcomes, wire decoration
+    stay what they were.  Until now the task functions of the receiver family took (i: int, dur: int, out: str, extra: Any): the
+    receiver's parameter validation (parse_params -> pydantic, run by run_task BEFORE its try block) only ever saw int / str / Any.
+    Here 1-2 tasks get 1-3 FURTHER message parameters annotated with the kinds of the pipeline family's registry
+    (pipeline_lib.PARAM_KINDS / gen_param_list; the annotation objects are pipeline_driver.ANNOT, imported - not copied): plain
+    classes, generic aliases, Optional / Union, TypedDict classes, Protocol classes, NewType, Literal, Annotated, pydantic models,
+    dataclasses, enums, classes whose metaclass answers / refuses isinstance(), special forms, forward references written as strings.
+      sc["late"] entry: dict(name, style, where: decorator | register_task | shared, when: pre | post, shape = dict(hints, opt_kw,
+                        params = dict(list = [dict(ann, by: pos | kw | kwonly | star, default, fresh)], future, ret)))
+      m["task"] = name; m["params"] = [dict(val, by)] per parameter of that function: the JSON value this message carries for it (of
+                        the annotated type, convertible to it, not convertible - then the function gets it as sent -, or null) and
+                        how: pos (appended to args after i, dur, out) | kw / kwonly (in kwargs) | absent (not sent, the default
+                        applies) | star (0-2 further positional values taken by *rest).  A message whose first three arguments go
+                        by keyword (wire argform kw / mixed) passes everything by keyword.
+    Every such message is a valid known-task message: whatever the annotation and the value, it must enter the function once."""
+    if rr.random() >= prof.get("params_p", 0):
+        return sc
+    msgs = sc["msgs"]
+    late = []
+    for t in range(rr.choice([1, 1, 2])):
+        cand = [i for i, m in enumerate(msgs) if m["kind"] == "ok" and not m.get("probe") and "task" not in m]
+        if not cand:
+            break
+        i0 = rr.choice(cand)
+        style = msgs[i0].get("style", "async")
+        mine = sorted([i0] + [i for i in cand if i != i0 and msgs[i].get("style", "async") == style and rr.random() < .5])
+        plist = PL.gen_param_list(rr)
+        fparams = []
+        for p in plist:
+            fp = dict(ann=p["ann"], by="kw" if p["by"] == "absent" else p["by"])
+            for k in ("default", "fresh"):
+                if p.get(k):
+                    fp[k] = True
+            fparams.append(fp)
+        P = dict(list=fparams)
+        if rr.random() < .2:
+            P["future"] = True
+        if rr.random() < .15:
+            P["ret"] = rr.choice(PL.PARAM_RET)
+        name = "typed.mod%d:handle_%s" % (t, style)
+        for n, i in enumerate(mine):
+            m = msgs[i]
+            all_kw = ((m.get("wire") or {}).get("argform", "pos")) != "pos"
+            vals = []
+            for p0, fp in zip(plist, fparams):
+                pool = PL.PARAM_KINDS[fp["ann"]][2]
+                if fp["by"] == "star":
+                    v = [] if all_kw else ([rr.choice(pool) for _ in range(rr.choice([0, 1, 2]))] if n else p0["val"])
+                    vals.append(dict(val=v, by="star"))
+                    continue
+                v = p0["val"] if n == 0 else (rr.choice(pool) if rr.random() >= .08 else None)
+                by = fp["by"]
+                if by == "pos" and all_kw:
+                    by = "kw"
+                elif by == "kw" and (p0["by"] == "absent" if n == 0 else rr.random() < .15):
+                    by = "absent"
+                vals.append(dict(val=v, by=by))
+            m["task"] = name
+            m["params"] = vals
+        late.append(dict(name=name, style=style, where=rr.choice(["decorator", "decorator", "register_task", "shared"]),
+                         when=rr.choice(["pre", "pre", "pre", "post"]), at_us=None,
+                         shape=dict(hints=rr.random() < .8, opt_kw=rr.random() < .2, params=P)))
+    if late:
+        sc["late"] = (sc.get("late") or []) + late
+        sc.setdefault("shared_default", rr.choice(["before", "before", "after", None]))
+        sc["typed"] = [t["name"] for t in late]
+    return sc
+
+
+def typed_params(sc, m):
+    """[dict(ann, by, val, ...)] of one message that names a task with annotated message parameters (decorate_params): the
+    function's parameters merged with what this message carries for them - the form pipeline_driver.call_args reads"""
+    if not m.get("params"):
+        return []
+    t = next(t for t in sc["late"] if t["name"] == m["task"] and (t.get("shape") or {}).get("params"))
+    return [dict(fp, val=mp["val"], by=mp["by"]) for fp, mp in zip(t["shape"]["params"]["list"], m["params"])]
+
+
 # --------------------------------------------------------------------------------------------- the worker's life cycle: run_receiver_task
 LIVE_EXC = ["connection", "connection", "runtime", "timeout", "os", "eof", "custom", "falsy", "group", "broker"]
 
@@ -775,6 +858,74 @@ def gen_relisten(r, prof):
     return sc
 
 
+def gen_rebuild(r, prof):
+    """Scenario family (own random stream): a NEW Receiver with a DIFFERENT configuration is built on the SAME broker object for
+    every listening session of one process.  taskiq.api.run_receiver_task builds a new Receiver after every failed listen() (with
+    the same arguments); a supervisor that restarts the worker with a lowered / raised limit, or an application that runs one
+    worker after the other on its broker, does so with other arguments.  Run by a supervisor of the driver
+    (sc["live"]["rebuild"]):
+      configs   [[max_async_tasks, max_prefetch]] of the Receiver built for session 0, 1, ... (2-3; limits go down, up, or stay)
+      prebuilt  [A, P] | None: a Receiver that somebody built on the broker EARLIER and never listened with (a health check, a
+                broker's own helper)
+      session s ends at the scripted point sc["live"]["faults"][s] = dict(k, at_us, exc | stop, hold): when the broker is asked for
+                message k the stream fails (listen() raises, as in gen_live) or - stop - the supervisor requests a graceful stop of
+                THAT session (its finish event; the session waits for its tasks, listen() returns); right after message k-1 was
+                taken (its tasks in flight) or when everything taken so far has finished; then the next Receiver is built, after a
+                back-off or at once, and the remaining backlog goes to it.  Every session gets more than A+P+1 long messages.
+    sc["A"], sc["P"] are session 0's; session_cfg(sc, s) gives each session's own.  Every Receiver is held to the statements by
+    ITS OWN configuration and its own messages (the per-session reading of gen_live).  Direct oracles only."""
+    ns = r.choice([2, 2, 2, 3])
+    x = r.random()
+    As = [r.choice([1, 1, 2, 2, 3, 4]) for _ in range(ns)]
+    if x < .5:
+        As.sort(reverse=True)           # the limit is lowered from session to session
+    elif x < .65:
+        As.sort()
+    Ps = [r.choice([0, 0, 1, 1, 2, 3]) for _ in range(ns)]
+    if r.random() < .3:
+        Ps = [Ps[0]] * ns
+    configs = [[a, p] for a, p in zip(As, Ps)]
+    mA, mP = max(As), max(Ps)
+    base = gen_base(r, dict(prof, cli_p=0, never=0, probe=False, stop_p=0, n_p=0, wtt_p=0, ends_p=prof.get("ends_p", .2), backlog=True,
+                            backlog_extra=(ns - 1) * (mA + mP + 3), A_choices=[mA], P_choices=[mP]))
+    base["A"], base["P"] = configs[0]
+    sc = gen_live(r, dict(prof, dup_rebuilt=True), base=base, n_faults=0)
+    msgs = sc["msgs"]
+    n0 = len(msgs)
+    work = sum(max(m["dur"], 0) + m.get("cleanup_us", 0) + m.get("fail_after_us", 0) for m in msgs)
+    faults, k, extra = [], 0, 0
+    for s in range(ns - 1):
+        a, p = configs[s]
+        k = min(k + a + p + 1 + r.choice([0, 1, 1, 2, 3]), n0 - (mA + mP + 3))
+        idle = r.random() < .3
+        at = None if not idle else msgs[k - 1]["at"] + work + US
+        f = dict(k=k, at_us=at, hold=r.random() < .5, mode="idle" if idle else "after-take")
+        if r.random() < .45:
+            f["stop"] = True
+            f["exc"] = "graceful-stop"
+        else:
+            f["exc"] = r.choice(LIVE_EXC)
+        extra += work + US
+        faults.append(f)
+    sc["live"]["faults"] = faults
+    sc["live"]["kw"] = {}
+    sc["live"]["rebuild"] = dict(configs=configs, prebuilt=[r.choice([1, 2, 4, 8]), r.choice([0, 1, 3])] if r.random() < .25 else None,
+                                 backoff_us=r.choice([0, 0, 1, 50_000, POLL, US]))
+    extra += sc["live"]["rebuild"]["backoff_us"] * len(faults)
+    sc["horizon_us"] += extra
+    return sc
+
+
+def session_cfg(sc, s):
+    """(max_async_tasks, max_prefetch) of the Receiver that listens in session s: the scenario's, unless a new Receiver with its own
+    configuration is built per session (gen_rebuild)"""
+    rb = (sc.get("live") or {}).get("rebuild")
+    if not rb:
+        return sc["A"], sc["P"]
+    a, p = rb["configs"][min(s, len(rb["configs"]) - 1)]
+    return a, p
+
+
 def is_live(sc):
     return sc.get("live") is not None
 
@@ -896,6 +1047,27 @@ def count_inputs(rep, sc):
         if t.get("role"):
             continue
         rep.count("registration:%s/%s" % (t["where"], t["when"] if t["when"] != "at" else "while-listening"))
+    if sc.get("typed"):
+        rep.count("task-parameters:scenario-with-annotated-message-parameters")
+        for t in sc["late"]:
+            P = (t.get("shape") or {}).get("params")
+            if not P or t.get("role"):
+                continue
+            rep.count("task-parameters:function-with-%d(%s,%s)" % (len(P["list"]), t["style"], t["where"]))
+            if P.get("future"):
+                rep.count("task-parameters:from-__future__-import-annotations")
+            if P.get("ret"):
+                rep.count("task-parameters:return-annotation:" + P["ret"])
+        for m in sc["msgs"]:
+            valued = False
+            for p in typed_params(sc, m):
+                rep.count("task-parameter:annotation:" + p["ann"])
+                rep.count("task-parameter:annotation-group:" + PL.PARAM_KINDS[p["ann"]][0])
+                rep.count("task-parameter:passed:%s%s" % (p["by"], ",null" if p["val"] is None else ""))
+                if p["by"] != "absent" and p["val"] is not None and p["val"] != [] and PL.param_raises_on_isinstance(p):
+                    valued = True
+            if valued:
+                rep.count("task-parameters:message-carries-a-value-for-a-class-that-refuses-isinstance(TypedDict/Protocol/metaclass)")
     if sc.get("dup"):
         d = sc["dup"]
         lo = next(t for t in sc["late"] if t.get("role") == "shadowed")
@@ -929,6 +1101,17 @@ def count_inputs(rep, sc):
             rep.count("relisten:faults-scripted=%d" % len(sc["live"]["faults"]))
         else:
             rep.count("relisten:stop-with-%d-of-%d-slots-busy,wait_tasks_timeout=%s" % (sv["old_in_flight"], sc["A"], sc["wtt_us"]))
+    elif is_live(sc) and sc["live"].get("rebuild"):
+        rb = sc["live"]["rebuild"]
+        cf = rb["configs"]
+        rep.count("rebuild:a-new-Receiver-with-its-own-configuration-per-session-on-one-broker")
+        rep.count("rebuild:sessions-scripted=%d" % len(cf))
+        for (a0, p0), (a1, p1) in zip(cf, cf[1:]):
+            rep.count("rebuild:max_async_tasks-%s,max_prefetch-%s" % ("lowered" if a1 < a0 else "raised" if a1 > a0 else "same",
+                                                                       "lowered" if p1 < p0 else "raised" if p1 > p0 else "same"))
+        for f in sc["live"]["faults"]:
+            rep.count("rebuild:session-ends-by-%s/%s" % ("graceful-stop" if f.get("stop") else "listen()-failing", f["mode"]))
+        rep.count("rebuild:a-Receiver-built-earlier-on-the-broker-that-never-listened=%s" % bool(rb.get("prebuilt")))
     elif is_live(sc):
         fl = sc["live"]["faults"]
         rep.count("live:run_receiver_task-runs-for-the-whole-scenario")
@@ -1421,7 +1604,9 @@ def replay_print(ctx, path, oracle, check):
         print("ORACLE:", f["what"], "| observed:", f.get("observed"), "| expected:", f.get("expected"))
     if is_live(sc):
         print("model: not applicable - %s over %d listen() sessions (the LTS models one session); direct oracles only" % (
-            "ONE Receiver object was run by a supervisor of the driver" if same_receiver(sc) else "run_receiver_task ran for real",
+            "ONE Receiver object was run by a supervisor of the driver" if same_receiver(sc) else
+            "a supervisor of the driver built a new Receiver with its own configuration per session" if sc["live"].get("rebuild") else
+            "run_receiver_task ran for real",
             1 + max([e[2] for e in raw if e[1] == "SESSION"] + [0])))
         print("holds" if not fails else "VIOLATED")
         return 0 if not fails else 1
